@@ -29,7 +29,7 @@ import (
 	"verifharness/internal/vkit"
 )
 
-func main() { vkit.Main("C03", []string{"Gen.R3", "Gen.S2Point", "Gen.CrosserLeaf", "Model.Crosser", "Model.CrosserExec"}, run) }
+func main() { vkit.Main("C03", []string{"Gen.R3", "Gen.S2Point", "Gen.S2Pred", "Model.Crosser", "Model.CrosserExec"}, run) }
 
 // ---------- terms ----------
 
